@@ -24,7 +24,7 @@ class InboundRules(Rule):
         c = d.conn
         if d.desync or any(fx["tag"] == "malformed" for fx in d.frame_fx):
             return
-        if d.aborted or d.excs:
+        if d.aborted or d.excs or (d.coarse and len(d.frame_fx) > 1):
             return
         if c is None or not (c.profile & SUBB):
             return
@@ -147,7 +147,7 @@ class SubRequestRules(Rule):
             if n is None or not (rq.valid and rq.allowed and rq.judged) or getattr(rq, "older_pending", False):
                 continue
             win = rq.window_at_call
-            failed = rq.fires[0][2][0] if (rq.fires and not rq.fires[0][1] and rq.fires[0][0] == d.seq) else None
+            failed = rq.refusal[0] if rq.refusal else None
             if n >= win:
                 L.probe("window_full_call")
                 if n > win:
@@ -170,9 +170,9 @@ class SubRequestRules(Rule):
             if rq.ack1 != d.seq:
                 L.violate("C07", "S2", "success-without-ack:%s" % rq.kind,
                           "%s rid=%d succeeded in a dispatch that delivered no matching acknowledgement" % (rq.kind, rid))
-        if d.kind == "data" and not d.desync:
+        if d.kind == "data" and not d.desync and not (d.coarse and len(d.frame_fx) > 1):
             for fx in d.frame_fx:
-                if fx["tag"] in ("suback-done", "unsuback-done"):
+                if fx["tag"] in ("suback-done", "unsuback-done") and not fx.get("after_abort"):
                     rq = fx["req"]
                     if not any(f[0] == d.seq for f in rq.fires) and not d.excs:
                         L.violate("C07", "S2", "ack-without-success:%s" % fx["tag"],
